@@ -19,20 +19,21 @@ U = [0.0, 0.25, 0.5, 0.75, 1.0]
 
 
 def make(z):
+    z = pm.typed(z)
     return {2: sp.Line, 3: sp.QuadraticBezier, 4: sp.CubicBezier}[len(z)](*z)
 
 
-def bez_case(ck, c1, c2, grid):
+def bez_case(ck, c1, c2, grid, scale=1.0, off=0j):
     P1, P2, a, D = c1['P'], c2['P'], c1['a'], c1['D']
     n = len(P1) - 1
-    z = [complex(x, y) for x, y in zip(P1, P2)]
+    z = [complex(x, y) * scale + off for x, y in zip(P1, P2)]
     if len(set(z)) == 1:
         return
     seg = make(z)
     t = a / D
     name = type(seg).__name__
     size = max(abs(w) for w in z) + 1
-    ck.case(fp=('bez', tuple(P1), tuple(P2), a), nontrivial=0 < a < D)
+    ck.case(fp=('bez', tuple(P1), tuple(P2), a, scale, off), nontrivial=0 < a < D)
     site = 'svgpathtools/path.py:%s' % name
 
     def bad(fn, what, exp, obs, extra=None):
@@ -44,8 +45,8 @@ def bez_case(ck, c1, c2, grid):
     try:
         if 0 < a < D:
             L, R = seg.split(t)
-            eL = [complex(x / float(D ** n), y / float(D ** n)) for x, y in zip(c1['L'], c2['L'])]
-            eR = [complex(x / float(D ** n), y / float(D ** n)) for x, y in zip(c1['R'], c2['R'])]
+            eL = [complex(x / float(D ** n), y / float(D ** n)) * scale + off for x, y in zip(c1['L'], c2['L'])]
+            eR = [complex(x / float(D ** n), y / float(D ** n)) * scale + off for x, y in zip(c1['R'], c2['R'])]
             if list(L.bpoints()) != eL or list(R.bpoints()) != eR:
                 return bad('split', 'split(%r) control points' % t, (eL, eR), (L.bpoints(), R.bpoints()))
             if L.end != R.start or L.end != seg.point(t) or L.start != seg.start or R.end != seg.end:
@@ -196,6 +197,9 @@ def run(ck):
         m = len(lst)
         for i, c1 in enumerate(lst):
             bez_case(ck, c1, lst[(i * 7 + 3) % m], U)
+            if i % 5 == 0:      # exact similarity images: power-of-two scales and integer offsets keep every value dyadic
+                bez_case(ck, c1, lst[(i * 3 + 1) % m], U, 2.0 ** -20, 0j)
+                bez_case(ck, c1, lst[(i * 3 + 2) % m], U, 2.0 ** 12, complex(2 ** 14, -2 ** 13))
             if i % 2 == 0:
                 bez_case(ck, c1, c1, U)           # collinear along the diagonal: fold-backs
     ck.sample('bezier', {'P1': [0, 4, -3, 1], 'P2': [0, 4, -3, 1], 't': '1/8..1'})
